@@ -1428,6 +1428,10 @@ def r6_7(rep):
                 continue
             if b.path.endswith("::new") or "take_this_id_usage_set" in b.path:
                 continue
+            # the usage sets are handled by `constrain` and its `constrain_*` helpers only; other ItemSets of the analysis (the node
+            # set computed for `new` / `initial_worklist`) are not usage sets.  The floor below fails closed if that ever changes.
+            if not b.path.split("::")[-1].startswith("constrain"):
+                continue
             n += 1
             fn = b.path.split("::")[-1]
             arg = c["args"][0]
